@@ -1022,7 +1022,7 @@ func Print(c *Conf, opt *PrintOpt) string {
 		}
 	}
 	for _, o := range c.Objs {
-		if strings.HasPrefix(o.Head, "crypto ") || strings.HasPrefix(o.Head, "interface ") {
+		if strings.HasPrefix(o.Head, "crypto ") || strings.HasPrefix(o.Head, "interface ") || strings.HasPrefix(o.Head, "ipv6 access-list ") {
 			continue
 		}
 		printObj(o)
@@ -1036,6 +1036,12 @@ func Print(c *Conf, opt *PrintOpt) string {
 			} else {
 				fmt.Fprintf(&b, " %s\n", t)
 			}
+		}
+	}
+	// IPv6 ACLs follow the IPv4 ones.
+	for _, o := range c.Objs {
+		if strings.HasPrefix(o.Head, "ipv6 access-list ") {
+			printObj(o)
 		}
 	}
 	b.WriteString("end\n")
